@@ -800,8 +800,25 @@ def gen_recipe(r, version, subs, dyn=False):
     return prog
 
 
+def protected_slots_prog(r):
+    """a program whose slots the scratch-slot optimiser must leave alone although each is stored and loaded back to back: a reserved
+    slot, and a slot shared by the main routine and a subroutine"""
+    from recipes import N, U, Program, Sub, Var
+    a = Var(U, r.choice([3, 7, 100, 255]))
+    g = Var(U)
+    f = Sub(0, "reader", [], U, None)
+    f.body = ("op", "Add2", [("load", g), ("int", r.randrange(1, 9))])
+    main = ("seq", [("store", a, ("int", r.randrange(10, 99))), ("op", "PopU", [("load", a)]),
+                    ("store", g, ("txn", "Fee")), ("op", "PopU", [("load", g)]),
+                    ("op", "PopU", [("call", f, [])]), ("approve",)])
+    return Program("app", main, [a, g], [f])
+
+
 def gen_target(r, kind=None) -> dict:
     kind = kind or r.choice(["recipe", "recipe", "recipe-dyn", "abi", "abi", "router", "router", "tmpl", "probe", "session", "recspill"])
+    optshare = kind == "optshare"
+    if optshare:
+        kind = "recipe"
     t = {"kind": kind}
     if kind in ("recipe", "recipe-dyn", "tmpl", "probe"):
         v = r.choice([5, 6, 7, 8, 9, 10])
@@ -810,6 +827,15 @@ def gen_target(r, kind=None) -> dict:
                  assemble=r.random() < 0.3, scratch_slots=r.choice([None, None, True, False]),
                  frame_pointers=r.choice([None, None, False] + ([True] if v >= 8 else [])),
                  other=r.choice([x for x in (6, 7, 8, 9, 10) if x >= v] or [v]))
+        if r.random() < 0.4:
+            # the target is compiled with a module-level OptimizeOptions object (scratch-slot optimisation on more often than not)
+            t["share_options"] = True
+            if r.random() < 0.7:
+                t["scratch_slots"] = True
+            if kind == "recipe" and r.random() < 0.5:
+                t["prog"] = pickle_prog(protected_slots_prog(r))
+        if optshare:
+            t.update(share_options=True, scratch_slots=True, prog=pickle_prog(protected_slots_prog(r)))
     elif kind == "abi":
         n = r.randrange(1, 4)
         t.update(descs=gen_abi_descs(r, n), which=[r.randrange(n) for _ in range(r.randrange(1, 3))],
@@ -851,9 +877,29 @@ def gen_target(r, kind=None) -> dict:
 # are opaque to the model (they cannot raise inside a subroutine body: the generated recipes never raise)
 
 HISTORY_KINDS = ["nothing", "objects", "compiled-ok", "fail-build", "fail-version", "fail-overflow", "raise-fp",
-                 "raise-scratch", "probe", "router", "fail-late", "mixed", "twin"]
-QUICK_HISTORIES = ["nothing", "compiled-ok", "fail-version", "fail-overflow", "raise-fp", "router", "twin"]
+                 "raise-scratch", "probe", "router", "fail-late", "mixed", "twin", "shared-options"]
+QUICK_HISTORIES = ["nothing", "compiled-ok", "fail-version", "fail-overflow", "raise-fp", "router", "twin", "shared-options"]
 HBASE = 500  # names of history objects (targets use names below 100)
+
+
+SHARED_OPTS: dict = {}
+
+
+def shared_options(pt, okw: dict):
+    """ONE OptimizeOptions object per process and setting: what a user does who keeps `opts = OptimizeOptions(...)` at module level"""
+    key = tuple(sorted(okw.items()))
+    if key not in SHARED_OPTS:
+        SHARED_OPTS[key] = pt.OptimizeOptions(**okw)
+    return SHARED_OPTS[key]
+
+
+def target_okw(t) -> dict:
+    okw = {}
+    if t.get("scratch_slots") is not None:
+        okw["scratch_slots"] = t["scratch_slots"]
+    if t.get("frame_pointers") is not None:
+        okw["frame_pointers"] = t["frame_pointers"]
+    return okw
 
 
 def gen_history(r, kind, target=None) -> list[dict]:
@@ -861,6 +907,14 @@ def gen_history(r, kind, target=None) -> list[dict]:
     acts: list[dict] = []
     op = lambda w: acts.append({"op": w})  # noqa: E731
     if kind == "nothing":
+        return acts
+    if kind == "shared-options":
+        # other programs (reserved, dynamic and shared slots) compiled before with the very OptimizeOptions object the target uses
+        okw = target_okw(target) if target is not None and target.get("share_options") else {"scratch_slots": True}
+        for j in range(r.randrange(1, 4)):
+            v = r.choice([6, 8, 9, 10])
+            prog = protected_slots_prog(r) if j == 0 else gen_recipe(r, v, r.randrange(1, 3), dyn=r.random() < 0.5)
+            acts.append({"opaque": "recipe", "prog": pickle_prog(prog), "version": v, "assemble": r.random() < 0.3, "share_okw": okw})
         return acts
     if kind == "twin":
         # an unrelated program that LOOKS like the target: same routine names and signatures, other bodies
@@ -968,7 +1022,9 @@ def run_opaque(pt, a):
             prog = unpickle_prog(a["prog"])
             b = recipes.Builder(prog)
             kw = {}
-            if a.get("scratch_slots") is not None:
+            if a.get("share_okw") is not None:
+                kw["optimize"] = shared_options(pt, a["share_okw"])
+            elif a.get("scratch_slots") is not None:
                 kw["optimize"] = pt.OptimizeOptions(scratch_slots=a["scratch_slots"])
             return pt.compileTeal(b.main(), recipes.PT_MODE[prog.mode], version=a["version"], assembleConstants=a["assemble"], **kw)
         if k == "type-error":
@@ -1015,7 +1071,9 @@ def run_target(pt, t) -> dict:
             okw["scratch_slots"] = t["scratch_slots"]
         if t["frame_pointers"] is not None:
             okw["frame_pointers"] = t["frame_pointers"]
-        if okw:
+        if t.get("share_options"):
+            kw["optimize"] = shared_options(pt, okw)      # the object earlier compilations of the process were given
+        elif okw:
             kw["optimize"] = pt.OptimizeOptions(**okw)
         mode = recipes.PT_MODE[prog.mode]
 
@@ -1381,7 +1439,7 @@ def part_b(rep: Report, n_targets: int, hist_kinds: list[str], hashseeds: list[s
     """targets are processed in waves; a thorough run stops launching waves when its time budget is used up
     (the evidence reports the number of targets actually run)"""
     P = Predictor()
-    kinds_cycle = ["recipe", "abi", "router", "recspill", "abi-chain", "recipe-dyn", "session", "router", "tmpl", "abi", "probe", "router", "recipe", "session", "recspill"]
+    kinds_cycle = ["recipe", "abi", "router", "recspill", "abi-chain", "recipe-dyn", "session", "router", "tmpl", "abi", "probe", "optshare", "recipe", "session", "recspill"]
     t_start = time.time()
     done = 0
     for w0 in range(0, n_targets, wave):
